@@ -23,9 +23,13 @@ META = {
 }
 
 
-def _cases(ctx, spec, cfg, name, timeout):
+def _cases(ctx, spec, cfg, name, timeout, single_action=False):
     path = os.path.join(ctx.tmp, name)
-    ctx.model(spec, cfg, emit_to=path, timeout=timeout, xmx="8g")
+    # -coverage costs a factor 2.4 on the recursive operators; a specification with one action besides Init is not vacuous
+    # as soon as it has more than its initial states
+    r = ctx.model(spec, cfg, emit_to=path, timeout=timeout, xmx="8g", must_cover=not single_action)
+    if single_action and r.distinct < 100:
+        raise vlib.HarnessError("%s/%s: only %d states" % (spec, cfg, r.distinct))
     return path
 
 
@@ -43,14 +47,15 @@ def run(ctx):
     ctx.replay(rep, c, label="R/HttpRequestStreams", args=args, timeout=ctx.pick(600, 3000))
     os.unlink(c)
     # R2: URL strings
-    c = _cases(ctx, "HttpRequestUrl", "MC_HttpRequestUrl_" + tier, "c09-url.cases", ctx.pick(300, 1500))
+    c = _cases(ctx, "HttpRequestUrl", "MC_HttpRequestUrl_" + tier, "c09-url.cases", ctx.pick(300, 1500), single_action=True)
     ctx.replay(rep, c, label="R/HttpRequestUrl", args=args, timeout=ctx.pick(600, 3000))
     os.unlink(c)
     # R3: request targets (NoDotDot is decided by TLC on the spec; the real reader must produce exactly that path)
     # (_dots: only '.' and one other byte matter to the removal of '..', so paths over {'.', 'a'} are enumerated much deeper)
-    cfgs = ["MC_HttpRequestTargets_quick", "MC_HttpRequestTargets_dots"] + ([] if ctx.quick else ["MC_HttpRequestTargets_thorough"])
+    cfgs = ["MC_HttpRequestTargets_quick", "MC_HttpRequestTargets_dots14"] if ctx.quick else \
+           ["MC_HttpRequestTargets_quick", "MC_HttpRequestTargets_dots", "MC_HttpRequestTargets_thorough"]
     for cfg in cfgs:
-        c = _cases(ctx, "HttpRequestTargets", cfg, "c09-tgt.cases", ctx.pick(300, 2400))
+        c = _cases(ctx, "HttpRequestTargets", cfg, "c09-tgt.cases", ctx.pick(300, 2400), single_action=True)
         ctx.replay(rep, c, label="R/" + cfg[3:], args=args, timeout=ctx.pick(600, 3000))
         os.unlink(c)
     # V: random mutated / cut / dribbled streams and URL strings, validated by the recognizer
